@@ -1704,4 +1704,50 @@ theorem witness_downward_diagnosed :
       [⟨.incompatibleTypesError, 0, 12⟩]) := by
   constructor <;> decide +kernel
 
+/-- `int a; uint b; a + b;` -/
+def progVoidArith : Ast.Program :=
+  ⟨⟨0, 21⟩, [(.classicalDeclarationStatement ⟨0, 6⟩ false (some (.mk ⟨0, 3⟩ .int none none)) false (some ⟨⟨4, 5⟩, "a"⟩) none), (.classicalDeclarationStatement ⟨7, 14⟩ false (some (.mk ⟨7, 11⟩ .uint none none)) false (some ⟨⟨12, 13⟩, "b"⟩) none), (.exprStmt ⟨15, 21⟩ (some (.binExpr ⟨15, 20⟩ (some (.arithOp .add)) (some (.identifier ⟨⟨15, 16⟩, "a"⟩)) (some (.identifier ⟨⟨19, 20⟩, "b"⟩)))))]⟩
+
+/-- `complex c; c / 2;` -/
+def progComplexDiv : Ast.Program :=
+  ⟨⟨0, 17⟩, [(.classicalDeclarationStatement ⟨0, 10⟩ false (some (.mk ⟨0, 7⟩ .complex none none)) false (some ⟨⟨8, 9⟩, "c"⟩) none), (.exprStmt ⟨11, 17⟩ (some (.binExpr ⟨11, 16⟩ (some (.arithOp .div)) (some (.identifier ⟨⟨11, 12⟩, "c"⟩)) (some (.literal ⟨⟨15, 16⟩, .intNumber "2" (some 2)⟩)))))]⟩
+
+/-- a binary expression statement: its type, and for each operand its type and whether it is a cast -/
+structure BinObs where
+  ty : T
+  leftTy : T
+  leftIsCast : Bool
+  rightTy : T
+  rightIsCast : Bool
+  deriving DecidableEq
+
+def binObs : Stmt → List BinObs
+  | .exprStmt (.mk (.binaryExpr _ l r) t) => [⟨t, l.getType, isCastExpr l, r.getType, isCastExpr r⟩]
+  | _ => []
+
+def observeBin (p : Ast.Program) : Option (List BinObs × List SemErr) :=
+  match analyze p with
+  | .ok c => some (c.program.flatMap binObs, c.semanticErrors)
+  | .error _ => none
+
+/-- "the common type of its operands" can be `Void`, with both operands cast to `Void` and NO
+diagnostic: `int a; uint b; a + b;` (the promotion table has no `int`/`uint` entry, C20 F19c);
+`WT` holds — it says what the code does — but the property's reading "common type" does not -/
+theorem witness_void_arithmetic_undiagnosed :
+    observeBin progVoidArith = some ([⟨.void, .void, true, .void, true⟩], []) ∧
+    implicitCastType .add (.int none false) (.uint none false) = .void := by
+  constructor
+  · decide +kernel
+  · decide
+
+/-- `/` with no `float` operand yields `float` regardless of the operands: `complex c; c / 2;` casts
+the complex operand DOWN to `float`, silently -/
+theorem witness_complex_division_downward :
+    observeBin progComplexDiv =
+      some ([⟨.float none false, .float none false, true, .float none false, true⟩], []) ∧
+    implicitCastType .div (.complex none false) (.int (some 128) true) = .float none false := by
+  constructor
+  · decide +kernel
+  · decide
+
 end Oq3.Props.C08
